@@ -56,9 +56,9 @@ Hypothesis Hg0 : bnum g = 0.
 Hypothesis Hid0 : info t 0 = None.
 Hypothesis Hgood : good_block g = true.
 
-(* a stored block passed either the full verification or the side-chain
-   verification, which does not look at the signature *)
-Definition goodish (b : block) : Prop := good_block b = true \/ bhv b = 1.
+(* a stored block passed the full verification or the side-chain verification:
+   good signature, good consensus field, body and state match the header *)
+Definition goodish (b : block) : Prop := good_block b = true.
 
 Record DInv (d : disk) : Prop := mkDInv {
   D_body : forall h, In h (d_hdr d) -> In h (d_body d) /\ In h (d_hnum d);
@@ -73,7 +73,7 @@ Lemma init_DInv : DInv (init_disk g).
 Proof.
   constructor; simpl.
   - intros h [<-|[]]; auto.
-  - intros h [<-|[]]. exists g. split; auto. split; [left; auto|]. split; auto.
+  - intros h [<-|[]]. exists g. split; auto. split; [exact Hgood|]. split; auto.
     intros Hn; congruence.
   - intros n h [E|[]]. inversion E; subst. split; auto. exists g; auto.
   - unfold canon; simpl. auto.
@@ -198,38 +198,33 @@ Qed.
 
 (* ---- the invariant of the running (or just killed) node ------------------------------- *)
 
-Definition J (s : st) : Prop :=
-  DInv (disk_of s) /\
-  (alive s -> B0 (disk_of s) /\ Qd (disk_of s) /\ cur s = d_headB (disk_of s)) /\
-  (~ alive s -> crashmid s = false -> Qd (disk_of s)).
+(* with block writes and head switches atomic, every database the node ever
+   leaves behind is good: what a restart can rely on, no body without header,
+   and consistent relative to its own head marker *)
+Definition Good (d : disk) : Prop := DInv d /\ B0 d /\ Qd d.
+
+Definition J (s : st) : Prop := Good (disk_of s) /\ (alive s -> cur s = d_headB (disk_of s)).
 
 Lemma init_J : J (init_st g).
 Proof.
-  unfold J, init_st; simpl. split; [apply init_DInv|]. split.
-  - intros _. split; [apply init_B0|]. split; [apply init_Qd|reflexivity].
-  - intros H. exfalso. apply H. unfold alive; simpl; discriminate.
+  unfold J, init_st, Good; simpl. split; [split; [apply init_DInv|split; [apply init_B0|apply init_Qd]]|auto].
 Qed.
 
 Lemma J_set_future : forall f s, J s -> J (set_future f s).
 Proof. intros f s H; exact H. Qed.
 
-(* a non-mid "adding" write *)
-Lemma J_wr_add : forall w s, J s -> forallb add_ew w = true ->
-  (alive s -> DInv (apply_write w (disk_of s))) ->
-  (alive (wr false w s) -> B0 (apply_write w (disk_of s))) ->
-  d_headB (apply_write w (disk_of s)) = d_headB (disk_of s) ->
-  J (wr false w s).
+Lemma J_die : forall s, J s -> J (die s).
+Proof. intros s [H _]. split; auto. intros Ha. exfalso. apply Ha. reflexivity. Qed.
+
+(* a write that keeps the head marker *)
+Lemma J_wr : forall w s, J s ->
+  (alive s -> Good (apply_write w (disk_of s)) /\ d_headB (apply_write w (disk_of s)) = d_headB (disk_of s)) ->
+  J (wr w s).
 Proof.
-  intros w s [HD [HA HX]] Hadd HDw HB0 Hhead.
-  assert (Qw : Qd (disk_of s) -> Qd (apply_write w (disk_of s))).
-  { clear -Hadd. revert Hadd. generalize (disk_of s). induction w as [|e w IH]; intros d H Q; auto. cbn [forallb] in H.
-    apply andb_true_iff in H. destruct H. rewrite apply_write_cons. apply IH; auto. apply Qd_add; auto. }
-  destruct (alive_dec s) as [Ha|Hd].
-  - destruct (HA Ha) as [Hb0 [HQ Hc]].
-    unfold J. rewrite wr_alive_disk, wr_cur; auto. split; auto. split.
-    + intros Ha2. split; [auto|]. split; [auto|congruence].
-    + intros Hd2 _. auto.
-  - rewrite wr_dead; auto. split; auto.
+  intros w s [HG HC] Hw. destruct (wr_disk_cases w s) as [[E Hd]|[Ha E]].
+  - split; [rewrite E; auto|]. intros Ha2. exfalso. apply Hd. eapply wr_alive_back; eauto.
+  - destruct (Hw Ha) as [HG' Hh]. split; [rewrite E; auto|].
+    intros _. rewrite wr_cur, E, Hh. auto.
 Qed.
 
 End Inv.
